@@ -339,6 +339,13 @@ Compute(D, f, v, a) ==
     [] f \in BinOps \cup UnOps -> CArith(D, f, v, a)
     [] f = "default" -> CDefault(v, a)
     [] OTHER -> Unspec
+(* split on its own: the statement fixes only "split then join with the same separator restores the string"; the engine's two       *)
+(* Ruby-compatible readings (`val == sep -> []`, runs of whitespace for a single-space separator) are admitted next to the plain one *)
+(* unless the very next filter is that join (then only a result that join can restore is admissible)                               *)
+ESplitLoose(v, a) ==
+  LET ref == Compute({}, "split", v, a)
+      ruby == Compute({"SplitMimicsRuby"}, "split", v, a)
+  IN IF ref.kind = "oneof" /\ ruby.kind = "oneof" THEN [kind |-> "oneof", alts |-> ref.alts \cup ruby.alts] ELSE ref
 Expect(f, v, a) == CASE f = "truncate" -> ETruncate(v, a)
                      [] f = "truncatewords" -> ETruncWords(v, a)
                      [] OTHER -> Compute({}, f, v, a)
@@ -357,7 +364,8 @@ Step ==
   /\ k <= Len(cell.fs)
   /\ LET f == cell.fs[k].f
          a == cell.fs[k].a
-         e == Expect(f, cur, a)
+         joinNext == k < Len(cell.fs) /\ cell.fs[k + 1].f = "join" /\ cell.fs[k + 1].a = a
+         e == IF f = "split" /\ ~joinNext THEN ESplitLoose(cur, a) ELSE Expect(f, cur, a)
          m == Compute(Deviations, f, mech, a)
      IN /\ exp' = e
         /\ cur' = IF Fixed(e) THEN The(e) ELSE Opaque
@@ -381,6 +389,8 @@ Texts(n) == UNION { [1..m -> Alphabet] : m \in 0..n }
 ListsOf(E, n) == { Lst(xs) : xs \in UNION { [1..m -> E] : m \in 0..n } }
 T(n) == { Str(s) : s \in Texts(n) }
 S1(c) == Str(<<c>>)
+(* a few texts with the other whitespace characters (newline, tab), outside the free alphabet *)
+WsTexts == { Str(<<"\n", "a", " ">>), Str(<<"a", "\t">>), Str(<<"\t", "\n">>), Str(<<" ", "a", "\n", "B", "\t", "a">>), Str(<<"a", "\n", "\n", "B">>) }
 NumStrs == { <<"1", "2">>, <<"-", "3">>, <<"1", ".", "5">>, <<"-", "0", ".", "5">>, <<"0">>, <<"2", ".", "0">> }
 NonNums == {S1("a"), Str(<<>>), Nil, Undef}
 Bigs == {Big(1, 0), Big(1, 1), Big(0 - 1, 0 - 1)}
@@ -427,7 +437,7 @@ DefaultForms == {<<>>} \cup { <<d>> : d \in DefaultArgs } \cup { <<d, Kw("allow_
 FamSize == IF "size" \notin Families THEN {} ELSE
   { Cell1("size", v, <<>>) : v \in Everything \cup T(MaxStr) \cup Mixed }
 FamCase == IF "case" \notin Families THEN {} ELSE
-  { Cell1(f, v, <<>>) : f \in CaseWsFilters, v \in T(MaxStr) \cup {IntV(12), IntV(0 - 3), Dec(150), Dec(0 - 50), Nil, Undef} }
+  { Cell1(f, v, <<>>) : f \in CaseWsFilters, v \in T(MaxStr) \cup WsTexts \cup {IntV(12), IntV(0 - 3), Dec(150), Dec(0 - 50), Nil, Undef} }
 FamSplit == IF "split" \notin Families THEN {} ELSE
   { Cell1("split", v, <<sep>>) : v \in T(MaxStr) \cup {IntV(12), Nil}, sep \in Seps \cup {Nil, Undef} }
 FamSplitJoin == IF "split" \notin Families THEN {} ELSE
@@ -437,7 +447,7 @@ FamJoin == IF "split" \notin Families THEN {} ELSE
 FamTruncate == IF "truncate" \notin Families THEN {} ELSE
   { Cell1("truncate", v, a) : v \in T(MaxTrunc) \cup {IntV(12), Dec(150), Nil, Undef}, a \in TruncArgs }
 FamTruncWords == IF "truncatewords" \notin Families THEN {} ELSE
-  { Cell1("truncatewords", v, a) : v \in T(MaxWords) \cup {IntV(12), Nil}, a \in WordArgs }
+  { Cell1("truncatewords", v, a) : v \in T(MaxWords) \cup WsTexts \cup {IntV(12), Nil}, a \in WordArgs }
 FamSlice == IF "slice" \notin Families THEN {} ELSE
   { Cell1("slice", v, a) : v \in T(MaxStr) \cup {IntV(12)} \cup SomeLists \cup ListsOf({IntV(1), S1("a"), Nil}, MaxList), a \in SliceArgs }
 FamFirstLast == IF "slice" \notin Families THEN {} ELSE
@@ -541,7 +551,7 @@ TruncateWordsKeepsAtMost ==
            /\ (rw = <<>> => w = <<>>)
 (* every claimed expectation admits what the mechanism computes (with Deviations = {} : the reference) *)
 MechanismMeetsExpectation ==
-  AtStart => LET ex == Expect(F, V, A) IN
+  AtStart => LET ex == IF F = "split" THEN ESplitLoose(V, A) ELSE Expect(F, V, A) IN
              (M.kind = "oneof" /\ ex.kind # "U") => \A r \in M.alts : Satisfies(ex, r)
 (* array filters return lists built from the (flattened) input's items *)
 FlatIn == Flatten(V.xs)
